@@ -395,6 +395,16 @@ func catalogue() []corruption {
 			(*r.as)[0].Attestation2 = (*r.as)[0].Attestation1
 			return true
 		}},
+		{"attester-slashing/surround-in-the-wrong-order", true, func(s *sim, r *blockRefs, _ *stateBox) bool {
+			// only "the first vote surrounds the second" is slashable evidence
+			if len(*r.as) == 0 || (*r.as)[0].Attestation1.Data.Target.Epoch == (*r.as)[0].Attestation2.Data.Target.Epoch {
+				return false
+			}
+			a := append(phase0.AttesterSlashings(nil), *r.as...)
+			a[0].Attestation1, a[0].Attestation2 = a[0].Attestation2, a[0].Attestation1
+			*r.as = a
+			return true
+		}},
 		{"attester-slashing/unsorted-indices", true, func(s *sim, r *blockRefs, _ *stateBox) bool {
 			if len(*r.as) == 0 || len((*r.as)[0].Attestation1.AttestingIndices) < 2 {
 				return false
@@ -792,7 +802,7 @@ func (s *sim) byzantine(parent *blockRec, blk *blockRec) {
 	// rare-state corruptions are tried first whenever the state allows them
 	var rare []corruption
 	for _, c := range cat {
-		if strings.HasSuffix(c.name, "of-withdrawable-validator") || c.name == "exit/too-young" || strings.HasSuffix(c.name, "under-current-version") || strings.HasSuffix(c.name, "-one-twice") || c.name == "deposit/first-one-repeated" {
+		if strings.HasSuffix(c.name, "of-withdrawable-validator") || c.name == "exit/too-young" || strings.HasSuffix(c.name, "under-current-version") || strings.HasSuffix(c.name, "-one-twice") || c.name == "deposit/first-one-repeated" || c.name == "attester-slashing/surround-in-the-wrong-order" {
 			rare = append(rare, c)
 		}
 	}
